@@ -152,6 +152,43 @@ def run_immfield(case):
     return res
 
 
+def extrakw_cases():
+    """an ImmutableStructure (additional properties allowed, the default) built with an UNDECLARED keyword whose value is
+    mutable: later mutation of that argument must not change the instance"""
+    return [{"suite": "extrakw", "value": i, "declared_too": d} for i in range(4) for d in (False, True)]
+
+
+def run_extrakw(case):
+    from typedpy import ImmutableStructure, Integer, Array
+    vals = [lambda: [1, [2]], lambda: {"k": [1]}, lambda: {1, 2}, lambda: ([1], {"z": 2})]
+    ctx = C.make_ctx()
+    try:
+        body = {"a": Integer, "_required": []}
+        if case["declared_too"]:
+            body["xs"] = Array[Integer]
+        cls = type("XK", (ImmutableStructure,), body)
+        kw = lambda arg: dict(a=1, extra=arg, **({"xs": [1]} if case["declared_too"] else {}))
+        cls(**kw(vals[case["value"]]()))
+    except Exception as e:
+        return {"skip": f"{type(e).__name__}: {e}"[:200]}
+    leaks = []
+    n_targets = len(aliasprobe.reachable_mutables(vals[case["value"]]()))
+    for ti in range(n_targets):
+        for mi in range(len(aliasprobe.mutation_attempts(aliasprobe.reachable_mutables(vals[case["value"]]())[ti][1]))):
+            arg = vals[case["value"]]()
+            x = cls(**kw(arg))
+            fp0 = (str(x), repr(Serializer_safe(x)))
+            path, o = aliasprobe.reachable_mutables(arg)[ti]
+            label, attempt = aliasprobe.mutation_attempts(o)[mi]
+            try:
+                attempt()
+            except Exception:
+                pass
+            if (str(x), repr(Serializer_safe(x))) != fp0:
+                leaks.append({"via": _short_path(path), "mut": label})
+    return {"leaks": leaks[:20]}
+
+
 def undefined_cases():
     """ImmutableStructure classes with _enable_undefined_value: assigning None (or anything) to any field after
     construction, and deleting, must raise and change nothing"""
@@ -352,7 +389,7 @@ def cases(rng, tier):
     return S.gen_cases(rng, tier, n, immutable=True) + S.gen_cases(rng, tier, n // 2, immutable=None) \
         + alias_cases(rng, 25 if tier == "quick" else 400) + immfield_cases() + undefined_cases() + DI.cases() \
         + S.gen_cases_ext(rng, tier, n // 3, immutable=True) + S.gen_cases_ext(rng, tier, n // 3, immutable=None) \
-        + accprobe_cases(tier)
+        + accprobe_cases(tier) + extrakw_cases()
 
 
 def search_cases(rng, tier):
@@ -370,6 +407,8 @@ def run_impl(case):
         return DI.run_impl(case)
     if case["suite"] == "accprobe":
         return run_accprobe(case)
+    if case["suite"] == "extrakw":
+        return run_extrakw(case)
     res = C.run_impl(case)
     if "ok" not in res:
         return res
@@ -450,7 +489,7 @@ def _short_path(path):
 
 
 def line(case, impl):
-    if case["suite"] in ("immfield", "undefimm", "deepimm", "accprobe"):
+    if case["suite"] in ("immfield", "undefimm", "deepimm", "accprobe", "extrakw"):
         return None
     return S.line(case, impl) if case["suite"] == "mutate" else C.line(case, impl)
 
@@ -464,6 +503,8 @@ def tags(case, impl, model):
         return ["undefimm:" + ("class" if case["immutable_class"] else "fields")]
     if case["suite"] == "deepimm":
         return ["deepimm:" + case["mode"], "deepimm-shape:" + case["shape"]]
+    if case["suite"] == "extrakw":
+        return ["extrakw"]
     if case["suite"] == "accprobe":
         return ["accprobe:" + case["kind"] + "." + case["accessor"], "accprobe-attempts:" + ("0" if not impl.get("attempts") else ">0")]
     return ["alias-probe" if case.get("probe") else "subclassing"] + (["impl:skipped"] if "ok" not in impl else [])
@@ -480,7 +521,7 @@ def describe(case, impl, model):
         return {"immfield": case, "probe_changed": impl.get("probe"), "ctor_leaks": impl.get("ctor_leaks")}
     if case["suite"] == "undefimm":
         return {"undefimm": case, "steps": impl.get("steps")}
-    if case["suite"] in ("deepimm", "accprobe"):
+    if case["suite"] in ("deepimm", "accprobe", "extrakw"):
         return {case["suite"]: case, "leaks": impl.get("leaks"), "attempts": impl.get("attempts")}
     return {"cls": case["cls"], "kw": case["kw"], "probe_changed": impl.get("probe"), "ctor_leaks": impl.get("ctor_leaks")}
 
@@ -489,6 +530,10 @@ def judge(case, impl, model):
     fails = []
     if case["suite"] == "deepimm":
         return None, DI.judge(case, impl)
+    if case["suite"] == "extrakw":
+        return None, [(f"ctor-arg-alias:additional-property:{r['via']}:{r['mut']}",
+                       f"ImmutableStructure changed by {r['mut']} on the value passed for an undeclared keyword ({r['via']})")
+                      for r in impl.get("leaks", [])]
     if case["suite"] == "accprobe":
         return None, [(f"accessor-leak:{case['owner']}:{case['kind']}.{case['accessor']}:{r['mut']}",
                        f"{case['owner']} ({case['shape']} {case['kind']} field) changed by {r['mut']} on an object handed out by "
